@@ -292,6 +292,9 @@ GMM_ITEMS = [
      'COV = np.cov(DC.T).reshape(1, 1) if data.shape[1] == 1 else np.cov(DC.T)'),
     ('old scikit-learn: mixture with the same initial parameters',
      "MIX = GMM(n_components=n_clusters, tol=tol, min_covar=min_covar, covariance_type='full', params='mc', init_params='')"),
+    ('old scikit-learn: initial weights', 'MIX.weight_ = W'),
+    ('old scikit-learn: initial means', 'MIX.means_ = MEANS'),
+    ('old scikit-learn: initial covariances', 'MIX.covars_ = COVARS'),
     ('covariance regularised on its diagonal for every cluster', 'COV += np.eye(data.shape[1]) * min_covar'),
     ('initial covariance of the cluster', 'COVARS.append(COV)'),
     ('means as an array', 'MEANS = np.array(MEANS)'),
